@@ -45,6 +45,16 @@
 (* argument has a non-default value in the lattice and that neutral        *)
 (* arguments leave the denotation of the cell unchanged.                   *)
 (*                                                                         *)
+(* Part "dims": the NAMED-DIMENSION lattice.  Every argument / convention   *)
+(* that names a dimension of a stacked tensor (dim of                      *)
+(* sum_interaction_terms, last_dim_is_batch of Kernel.__call__ and         *)
+(* covar_dist, the kernel dimension the structure kernels reduce over)     *)
+(* ranges over its valid positions with 0..2 batch axes; the sizes of all  *)
+(* axes of a cell are pairwise distinct and every ordered pair of axes     *)
+(* occurs in increasing size (DimsOK), so that reading a hard-coded        *)
+(* position instead of the named one yields a different number.  Exact     *)
+(* kind "sitdim": sum_interaction_terms on a stack with a batch axis.      *)
+(*                                                                         *)
 (* Exact kinds "arcmask" (the ArcKernel embedding with an activity         *)
 (* indicator delta_func on quarter-turn phases: inactive coordinates embed *)
 (* at the ORIGIN, hence squared chord lengths 0 / w^2 / 2 w^2 / 4 w^2) and *)
@@ -187,8 +197,74 @@ ArgsOK ==
 \* every family of the main lattice and every new family has at least one argument row
 ASSUME \A f \in ArgFams : Args(f) # {}
 
+\* ============================== dims ============================================================
+\* Arguments and conventions that name a DIMENSION of a stacked tensor:
+\*   sit        sum_interaction_terms(covars, max_degree, dim): `dim` names the axis that holds the K base covariances; it ranges over
+\*              EVERY batch position -(3 + nb) .. -3 of a covars tensor with nb further batch axes (Tensor or LinearOperator)
+\*   cdist      Kernel.covar_dist(x1, x2, last_dim_is_batch = True): per-dimension distances, documented shape ... x K x N x M / ... x K x N
+\*   ldb        kernel(x1, x2, last_dim_is_batch = True): K one-dimensional kernels, documented shape ... x K x N x M / ... x K x N (diag)
+\*   addstruct / prodstruct / ngadd   the structure kernels reduce that stack over the kernel dimension (-3, -2 with diag)
+\* A cell fixes the number nb of batch axes, how many (kb) of the trailing batch axes the kernel parameters carry, the position pos of the
+\* stacked axis among the leading axes, the evaluation mode, the max_degree class and a ROTATION rot of the size assignment: the axes
+\* (batch axes, K, N and - for n1 # n2 - M) always have PAIRWISE DISTINCT sizes, and over the rotations every ordered pair of axes (a, b)
+\* occurs with size(a) < size(b): an implementation that reads the size (or reduces over the position) of a hard-coded axis instead of the
+\* named one sees a different number, smaller in some cells and larger in others.
+DimTargets == {"sit", "cdist", "ldb", "addstruct", "prodstruct", "ngadd"}
+DimFams(t) == CASE t = "sit"        -> {"tensor", "lazy"}                       \* covars handed over as a Tensor / as a LinearOperator
+                [] t = "cdist"      -> {"dist", "sqdist"}                       \* square_dist = False / True
+                [] t = "ldb"        -> {"rbf", "matern15", "matern25", "rq", "periodic", "linear", "polynomial", "constant", "cosine", "scale", "sm"}
+                [] t = "addstruct"  -> StructFams
+                [] t = "prodstruct" -> StructFams \ {"linear"}
+                [] t = "ngadd"      -> {"rbf", "matern25", "rq"}
+DimMds(t)   == CASE t = "sit" -> {"none", "1", "2", "Km1", "K", "over"} [] t = "ngadd" -> {"none", "2", "over"} [] OTHER -> {"-"}
+DimModes(t) == IF t = "sit" THEN {"two", "same"} ELSE {"two", "same", "diag"}   \* n1 # n2 (both orders over the rotations), x2 = None, diag = True
+DimSpace == UNION {[tgt : {t}, fam : DimFams(t), md : DimMds(t), nb : 0..2, kb : 0..2, pos : 0..2, mode : DimModes(t), rot : 0..4] : t \in DimTargets}
+
+BatchNames == <<"b1", "b2">>
+\* the leading axes: nb batch axes with the stacked axis K inserted at position pos (0 = outermost, nb = next to the matrix axes)
+LeadAxes(s) == [k \in 1..(s.nb + 1) |-> IF k = s.pos + 1 THEN "K" ELSE IF k <= s.pos THEN BatchNames[k] ELSE BatchNames[k - 1]]
+AxesOf(s)   == LeadAxes(s) \o <<"N">> \o (IF s.mode = "two" THEN <<"M">> ELSE <<>>)
+NAxes(s)    == s.nb + 2 + (IF s.mode = "two" THEN 1 ELSE 0)
+SizeAt(s, k) == 2 + ((k - 1 + s.rot) % NAxes(s))                                \* sizes 2 .. NAxes + 1, rotated
+AxisIdx(s, a) == CHOOSE k \in 1..NAxes(s) : AxesOf(s)[k] = a
+SizeOf(s, a) == IF a = "M" /\ s.mode # "two" THEN SizeAt(s, AxisIdx(s, "N")) ELSE SizeAt(s, AxisIdx(s, a))
+BatchSizes(s) == [k \in 1..s.nb |-> SizeOf(s, BatchNames[k])]
+DimValid(s) ==
+  /\ s \in DimSpace
+  /\ s.pos <= s.nb /\ s.kb <= s.nb /\ s.rot < NAxes(s)
+  /\ (s.tgt # "sit" => s.pos = s.nb)                                            \* kernels: the documented place of K is next to the matrix axes
+  /\ (s.tgt \in {"sit", "cdist"} => s.kb = 0)                                   \* no kernel parameters involved
+DimCells == {s \in DimSpace : DimValid(s)}
+\* the max_degree argument (0 stands for None) and the documented number of interaction orders: max_degree defaults to and is capped at K
+MdArg(s)  == LET K == SizeOf(s, "K") IN CASE s.md = "1" -> 1 [] s.md = "2" -> 2 [] s.md = "Km1" -> K - 1 [] s.md = "K" -> K [] s.md = "over" -> K + 2 [] OTHER -> 0
+EffDeg(s) == LET K == SizeOf(s, "K") IN IF s.md = "-" THEN 0 ELSE IF s.md = "none" \/ MdArg(s) > K THEN K ELSE MdArg(s)
+\* sit: the covars tensor and the `dim` argument that names K in it (negative, counted from the end)
+SitShape(s) == [k \in 1..(s.nb + 1) |-> SizeOf(s, LeadAxes(s)[k])] \o <<SizeOf(s, "N"), SizeOf(s, "M")>>
+SitDim(s)   == 0 - (3 + s.nb - s.pos)
+MatAxes(s)  == IF s.mode = "diag" THEN <<SizeOf(s, "N")>> ELSE <<SizeOf(s, "N"), SizeOf(s, "M")>>
+DimShape(s) == CASE s.tgt = "sit" -> BatchSizes(s) \o MatAxes(s)                                    \* the named axis is summed away
+                 [] s.tgt \in {"cdist", "ldb"} -> BatchSizes(s) \o <<SizeOf(s, "K")>> \o MatAxes(s)  \* ... x K x N x M, ... x K x N with diag
+                 [] OTHER -> BatchSizes(s) \o MatAxes(s)                                             \* reduced over the kernel dimension
+DimOut(s) == [b |-> BatchSizes(s), K |-> SizeOf(s, "K"), N |-> SizeOf(s, "N"), M |-> SizeOf(s, "M"),
+              kbatch |-> SubSeq(BatchSizes(s), s.nb - s.kb + 1, s.nb),                              \* batch shape of the kernel parameters
+              inshape |-> IF s.tgt = "sit" THEN SitShape(s) ELSE <<>>, dim |-> IF s.tgt = "sit" THEN SitDim(s) ELSE IF s.mode = "diag" THEN 0 - 2 ELSE 0 - 3,
+              mdarg |-> MdArg(s), deg |-> EffDeg(s), shape |-> DimShape(s)]
+DimsOK ==
+  Part = "dims" =>
+    /\ DimValid(c) /\ out = DimOut(c)
+    /\ \A a, b \in 1..NAxes(c) : a # b => SizeAt(c, a) # SizeAt(c, b)                                \* pairwise distinct sizes
+    /\ \A a, b \in 1..NAxes(c) : a # b => \E r \in 0..(NAxes(c) - 1) :                               \* every ordered pair of axes in increasing size in some rotation
+          LET t == [c EXCEPT !.rot = r] IN DimValid(t) /\ SizeAt(t, a) < SizeAt(t, b)
+    /\ (c.md # "-" => EffDeg(c) >= 1 /\ EffDeg(c) <= SizeOf(c, "K") /\ (c.md \in {"none", "K", "over"} => EffDeg(c) = SizeOf(c, "K")))
+    /\ (c.tgt = "sit" =>
+          /\ SitShape(c)[Len(SitShape(c)) + 1 + SitDim(c)] = SizeOf(c, "K")                            \* `dim` names the stacked axis ...
+          /\ SitDim(c) <= 0 - 3 /\ SitDim(c) >= 0 - Len(SitShape(c))                                  \* ... a batch axis, negative
+          /\ \A p \in 0..c.nb : DimValid([c EXCEPT !.pos = p])                                        \* ... at every valid position
+          /\ (c.pos # c.nb => \E r \in 0..(NAxes(c) - 1) : LET t == [c EXCEPT !.rot = r] S == SitShape(t)
+                               IN S[Len(S) - 2] < SizeOf(t, "K")))                                     \* the default position -3 holds FEWER than K entries in some cell
+
 \* ============================== layout ==========================================================
-LayoutCells == [n1 : 1..3, n2 : 1..3, d : 1..3, order : 1..2]
+LayoutCells ==[n1 : 1..3, n2 : 1..3, d : 1..3, order : 1..2]
 Arange(k) == [p \in 1..k |-> p - 1]
 View2(v, r, cc) == [i \in 1..r |-> [j \in 1..cc |-> v[(i - 1) * cc + j]]]                    \* tensor.view(r, cc), row major
 Flat(M) == [p \in 1..(Len(M) * Len(M[1])) |-> M[((p - 1) \div Len(M[1])) + 1][((p - 1) % Len(M[1])) + 1]]
@@ -340,6 +416,19 @@ NGMats(i) ==
       add  |-> M(LAMBDA z : ESub(z, 1)),                                                              \* AdditiveStructureKernel
       prod |-> M(LAMBDA z : ESub(z, D))]                                                              \* ProductStructureKernel
 
+\* ---- sum_interaction_terms on a stack with a batch axis -----------------------------------------------------------------
+\* base covariance k of batch element bb: x_k y_k + v + vb[bb]; the stack is B x D x N x M (spos = 1, dim = -3) or D x B x N x M (spos = 0, dim = -4);
+\* smd = max_degree (0 stands for None): documented to default to D - the size of the NAMED axis - and capped there
+SDZ(i, bb, r, s) == [k \in 1..Len(i.X1[r]) |-> RAdd(R(i.X1[r][k] * i.X2[s][k]), RAdd(Q(i.v), Q(i.vb[bb])))]
+SDDeg(i) == LET D == Len(i.X1[1]) IN IF i.smd = 0 \/ i.smd > D THEN D ELSE i.smd
+SDSum(i, z) == RSum([deg \in 1..SDDeg(i) |-> ESub(z, deg)])                                          \* explicit sum over index subsets
+SDMat(i) == [bb \in 1..Len(i.vb) |-> [r \in 1..Len(i.X1) |-> [s \in 1..Len(i.X2) |-> SDSum(i, SDZ(i, bb, r, s))]]]
+SDOK(i) == \A bb \in 1..Len(i.vb), r \in 1..Len(i.X1), s \in 1..Len(i.X2) :
+             LET z == SDZ(i, bb, r, s)
+             IN /\ SDSum(i, z) = RSum([deg \in 1..SDDeg(i) |-> ESIT(z, deg - 1)])                     \* the recurrence of the code, order by order
+                /\ (SDDeg(i) = Len(z) => SDSum(i, z) = RSub(RProd([k \in 1..Len(z) |-> RAdd(ROne, z[k])]), ROne))   \* all orders: prod (1 + z_k) - 1
+SDSizes(i) == <<Len(i.vb), Len(i.X1[1]), Len(i.X1), Len(i.X2)>>                                       \* B, D, N, M
+
 \* ---- ArcKernel with an activity indicator (delta_func) on quarter-turn phases -----------------------------------
 \* coordinate i of point r: active (A[r][i] = 1) with phase pi rho_i x_i / L_i = Q[r][i] * pi / 2, or inactive (A[r][i] = 0);
 \* documented embedding g_i = [0, 0] if inactive, w_i [sin, cos] otherwise; then the base kernel with unit lengthscale
@@ -390,6 +479,7 @@ DistinctOK ==
       [] c.kind = "ng"       -> PairwiseDistinct(c.o)
       [] c.kind = "arcmask"  -> PairwiseDistinct(c.om)
       [] c.kind = "mtask"    -> \A k \in 1..Len(c.terms) : PairwiseDistinct(c.terms[k].v) /\ ExprDistinct(c.terms[k].e)
+      [] c.kind = "sitdim"   -> PairwiseDistinct(c.vb) /\ \A a, b \in 1..4 : a # b => SDSizes(c)[a] # SDSizes(c)[b]   \* no two axes of the stack have the same size
       [] OTHER -> TRUE
 
 ExactOK ==
@@ -401,6 +491,7 @@ ExactOK ==
       [] c.kind = "ng"       -> NGOK(c)
       [] c.kind = "arcmask"  -> ArcOK(c)
       [] c.kind = "mtask"    -> MTaskOK(c)
+      [] c.kind = "sitdim"   -> SDOK(c)
 
 Expected(i) ==
   CASE i.kind = "expr"     -> [K |-> Gram(i.e, i.X1, i.X2), diag |-> [r \in 1..Len(i.X1) |-> KEval(i.e, i.X1[r], i.X1[r])]]
@@ -410,15 +501,18 @@ Expected(i) ==
     [] i.kind = "ng"       -> NGMats(i)
     [] i.kind = "arcmask"  -> [K |-> ArcMat(i), diag |-> [r \in 1..Len(i.Q1) |-> ArcBase(i, ArcEmb(i.Q1[r], i.A1[r], i.om), ArcEmb(i.Q1[r], i.A1[r], i.om))]]
     [] i.kind = "mtask"    -> [K |-> MTaskMat(i), diag |-> MTaskDiag(i), idx |-> IndexMat(i)]
+    [] i.kind = "sitdim"   -> [K |-> SDMat(i), deg |-> SDDeg(i)]
 
 Init == /\ c \in (CASE Part = "lattice" -> {s \in Cells : Valid(s)}
                     [] Part = "layout" -> LayoutCells
                     [] Part = "args" -> ArgCells
+                    [] Part = "dims" -> DimCells
                     [] OTHER -> Instances)
         /\ out = (CASE Part = "lattice" -> PathOf(c)
                     [] Part = "layout" -> LET m == OutputsPerInput(c) IN [rows |-> c.n1 * m, cols |-> c.n2 * m, perm1 |-> Perm(c.n1, m), perm2 |-> Perm(c.n2, m)]
                     [] Part = "exact" -> Expected(c)
                     [] Part = "args" -> ArgOut(c)
+                    [] Part = "dims" -> DimOut(c)
                     [] OTHER -> <<>>)
 Next == UNCHANGED vars
 Spec == Init /\ [][Next]_vars
